@@ -1,7 +1,7 @@
 package main
 
 func init() {
-	register("C01", "Decided: the hand-over points an accepted request passes through; if one of them can drop the request on some path the request is lost for the fault sequence driving that path (safety half of the property). R-C01-1 accepted => enqueued; R-C01-2 the wake-up of the task goroutine cannot be lost; R-C01-3 the task never discards a QoS>=1 request; R-C01-4 a failed request's handle is queued; R-C01-5 every failure after registration is retryable; R-C01-6 the handle re-issues this request on the client it is given; R-C01-7 Retry keeps what it does not complete; R-C01-8 the reconnect loop resumes the queue on every new connection. Not decided: that a reconnect eventually happens and the broker answers (liveness), Disconnect, process crash.", checkC01)
+	register("C01", "Decided: the hand-over points an accepted request passes through; if one of them can drop the request on some path the request is lost for the fault sequence driving that path (safety half of the property). R-C01-1 accepted => enqueued; R-C01-2 the wake-up of the task goroutine cannot be lost; R-C01-3 the task never discards a QoS>=1 request; R-C01-4 a failed request's handle is queued; R-C01-5 every failure after registration is retryable; R-C01-6 the handle re-issues this request on the client it is given; R-C01-7 Retry keeps what it does not complete; R-C01-8 the reconnect loop resumes the queue on every new connection and stops only on request (context done, Disconnect, graceful end). Not decided: that a reconnect eventually happens and the broker answers (liveness), Disconnect, process crash.", checkC01)
 }
 
 func checkC01(r *Run) {
